@@ -589,6 +589,10 @@ func (fc *FnCtx) atFn(elem types.Type) string {
 	}
 	fc.atSorts[name] = es
 	fc.sc.Header("at:"+name, fmt.Sprintf("(declare-fun %s ((Array Int (Array Int %s)) Int Int Int) %s)\n(assert (forall ((A (Array Int (Array Int %s))) (a Int) (o Int) (i Int)) (! (= (%s A a o i) (select (select A a) (+ o i))) :pattern ((%s A a o i)))))", name, es, es, es, name, name))
+	if es == sortSlice {
+		// slices stored in arrays are well-formed slice headers (type invariant of the memory model)
+		fc.sc.Header("at-inv:"+name, fmt.Sprintf("(assert (forall ((A (Array Int (Array Int Slice))) (a Int) (o Int) (i Int)) (! (slice_ok (%s A a o i)) :pattern ((%s A a o i)))))", name, name))
+	}
 	return name
 }
 
